@@ -463,13 +463,10 @@ class SVG:
             svg.apply_style_attributes(inplace=True)
             return svg
 
-        if self.elements:
-            # if we already parsed the SVG shapes, apply style attrs and sync tree
-            for shape in self.shapes():
-                shape.apply_style_attribute(inplace=True)
-            self._update_etree()
+        # write cached shapes back first and work on the tree: a cached shape also carries the
+        # style its ancestors pass down, which is not its own and must not override its attributes
+        self._update_etree()
 
-        # parse all remaining style attributes (e.g. in gradients or root svg element)
         for el in itertools.chain((self.svg_root,), self.xpath("//svg:*[@style]")):
             self._apply_styles(el)
 
